@@ -127,7 +127,39 @@ func (m *Mock) Handle(c kafka.VerifCoordCall) kafka.VerifCoordReply {
 
 func (m *Mock) emitRet(c kafka.VerifCoordCall, r kafka.VerifCoordReply) {
 	kafka.VerifGroupEmit("M.Ret", c.Conn, c.Method, ErrClass(r.Err, r.ErrorCode), Mem(c.MemberID), c.GenerationID,
-		Mem(r.MemberID), r.GenerationID, r.MemberID != "" && r.MemberID == r.LeaderID, len(r.Parts), strings.Join(c.Topics, ","))
+		Mem(r.MemberID), r.GenerationID, r.MemberID != "" && r.MemberID == r.LeaderID, len(r.Parts), strings.Join(c.Topics, ","),
+		Assign(r.Assignments), Committed(r.Committed))
+}
+
+// Assign renders a SyncGroup assignment: "t/p,t/p" (topics sorted, partitions in list order), "-" when empty.
+func Assign(a map[string][]int32) string {
+	var topics []string
+	for t := range a {
+		topics = append(topics, t)
+	}
+	sort.Strings(topics)
+	var parts []string
+	for _, t := range topics {
+		for _, p := range a[t] {
+			parts = append(parts, fmt.Sprintf("%s/%d", t, p))
+		}
+	}
+	if len(parts) == 0 {
+		return "-"
+	}
+	return strings.Join(parts, ",")
+}
+
+// Committed renders an OffsetFetch answer in wire order: "t/p@o,…", "-" when empty.
+func Committed(cs []kafka.VerifGroupOffset) string {
+	var parts []string
+	for _, c := range cs {
+		parts = append(parts, fmt.Sprintf("%s/%d@%d", c.Topic, c.Partition, c.Offset))
+	}
+	if len(parts) == 0 {
+		return "-"
+	}
+	return strings.Join(parts, ",")
 }
 
 // Snapshot returns the parked calls (oldest first).
